@@ -1,3 +1,2 @@
-import CobaldVerif.Model.Num
-import CobaldVerif.Model.Standardiser
 import CobaldVerif.Drive.All
+import CobaldVerif.Props.C06
